@@ -46,7 +46,7 @@ func init() {
 		Explain: "Decides: all shared client state is accessed under client.lock, writes under the write lock, helpers documented as needing the lock are checked at their call sites (C15.lock, lockset analysis); every change of client.metadata is followed in the same function by the matching change of the derived partition lists, which are rebuilt from setPartitionCache for both partition sets (C15.pair); updateMetadata's switch on the topic error has the tabled effect per class (stored / retry / error) and drops the old entry first (C15.classes); " +
 			"the derived lists are sorted and the writable list omits exactly the leaderless partitions (C15.sorted-writable); cachedLeader returns a broker only if it is registered and the partition has a leader (C15.leader); the broker set is reconciled with each response (C15.brokers); every candidate-iteration loop sets the failed broker aside before trying the next and resurrects the dead seeds before retrying (C15.progress); read paths refresh at most once on a miss (C15.miss). " +
 			"NOT covered: folding of arbitrary response sequences, what concurrent readers observe beyond the lock discipline, reachability of brokers.",
-		Rules: []func(*Ctx){c15Lock, c15Pair, c15Classes, c15SortedWritable, c15Leader, c15Brokers, c15Progress, c15Miss},
+		Rules: []func(*Ctx){c15Lock, c15Pair, c15Classes, c15SortedWritable, c15Leader, c15Brokers, c15Progress, c15Miss, c15ReadSets},
 	})
 }
 
@@ -648,5 +648,37 @@ func c15Miss(c *Ctx) {
 		s, _ := reg.MustFollow(refresh, Or(cache, func(it Item) bool { return IsReturn()(it) && !ReturnNilErr()(it) }))
 		c.Check(!cr.HasTwo() && len(cr.Sites) == 1 && it.IsZero() && s.IsZero(), rule, fn, "refresh-once-on-miss", nil, "cache read → (miss) one RefreshMetadata → cache read again",
 			"the read path does not follow cache → single refresh on miss → cache: stale answers after a refresh, or unbounded refreshes", nil)
+	}
+}
+
+// c15ReadSets: each read API answers from its own derived list on every path — also on the path that
+// re-reads the cache after a refresh-on-miss.
+func c15ReadSets(c *Ctx) {
+	p := c.P
+	rule := "C15.read-sets"
+	c.Doc(rule, "client.Partitions passes allPartitions to every cachedPartitions call, client.WritablePartitions passes writablePartitions to every one (first read and the re-read after the refresh); what they return is the result of such a call")
+	c.Floor(rule, 4)
+	allK, _ := p.ConstNamed("allPartitions")
+	wrK, _ := p.ConstNamed("writablePartitions")
+	for _, t := range []struct {
+		fn   string
+		want int64
+		name string
+	}{{"client.Partitions", allK, "allPartitions"}, {"client.WritablePartitions", wrK, "writablePartitions"}} {
+		fn := c.NeedFn(rule, t.fn)
+		if fn == nil {
+			continue
+		}
+		calls := Info(fn).Find(p.CallTo("client.cachedPartitions"))
+		if len(calls) == 0 {
+			c.Unresolved(rule, "cachedPartitions call in "+t.fn)
+			continue
+		}
+		for _, s := range calls {
+			a := callArgs(s)
+			ok := len(a) == 3 && ConstInt(t.want)(a[2]) && ParamN(1)(a[1])
+			c.Check(ok, rule, fn, "set:"+t.name, s.Instr(), t.fn+" reads the "+t.name+" list of the topic it was asked about",
+				t.fn+" reads another derived list than "+t.name+" (or another topic's) on this path: after a refresh-on-miss the caller gets leaderless partitions as writable, or the other way round", nil)
+		}
 	}
 }
